@@ -1590,7 +1590,11 @@ class RequestHandler:
                 version, token, timestamp = self._decode_xsrf_token(cookie)
             else:
                 version, token, timestamp = None, None, None
-            if token is None:
+            if not token:
+                # A cookie that is missing, undecodable, or that decodes to an
+                # empty token cannot authenticate anything: check_xsrf_cookie
+                # rejects empty tokens, so every token issued for it would be
+                # refused.  Start a new session token instead.
                 version = None
                 token = os.urandom(16)
                 timestamp = time.time()
